@@ -66,6 +66,10 @@ def history(seed, length, source="dendrobine_mol2", kind="Molecule"):
                 ops += ["append_bond2"]
         if len(live) >= 2:
             ops += ["connect"] * 2
+        if len(free_extra) >= 1 and len(live) >= 1:
+            ops += ["append_bonds"] * 2
+        if bonds:
+            ops += ["parallel"]
         if bonds:
             ops += ["del_bond"] * 2 + ["remove_substituent"] * (2 if ad.nap < NAP else 0)
         if live:
@@ -100,9 +104,37 @@ def history(seed, length, source="dendrobine_mol2", kind="Molecule"):
                 if sorted([live[i], live[j]]) not in bonds:
                     r = ad.apply({"act": "connect", "i": i, "j": j}); log("connect", r["out"], i=i, j=j)
                     break
+        elif op == "append_bonds":
+            # batch forms: a new atom that appears in both bonds (as first end of the first one), or two new atoms
+            form = rnd.choice(["append_bonds", "extend_bonds"])
+            x = rnd.choice(free_extra)
+            others = [t for t in live + free_extra if t != x]
+            if len(others) < 2:
+                continue
+            y1, y2 = rnd.sample(others, 2)
+            e1, e2 = ([x, y1], [x, y2])
+            if rnd.random() < 0.3:
+                e1 = e1[::-1]
+            if rnd.random() < 0.3:
+                e2 = e2[::-1]
+            if sorted(e1) in bonds or sorted(e2) in bonds:
+                continue
+            act = {"act": form, "x1": e1[0], "y1": e1[1], "x2": e2[0], "y2": e2[1]}
+            r = ad.apply(act); log(form, r["out"], **{k: v for k, v in act.items() if k != "act"})
+        elif op == "parallel":
+            cand = [b for b in bonds if b not in o.get("dbl", [])]
+            if not cand:
+                continue
+            b = rnd.choice(cand)
+            if rnd.random() < 0.5:
+                i, j = sorted((live.index(b[0]), live.index(b[1])))
+                r = ad.apply({"act": "connect", "i": i, "j": j}); log("connect", r["out"], i=i, j=j)
+            else:
+                r = ad.apply({"act": "append_bond_par", "x": b[0], "y": b[1]}); log("append_bond_par", r["out"], x=b[0], y=b[1])
         elif op == "del_bond":
             b = rnd.choice(bonds)
-            r = ad.apply({"act": "del_bond", "b": b}); log("del_bond", r["out"], b=b)
+            which = rnd.choice(["first", "second"]) if b in o.get("dbl", []) else "only"
+            r = ad.apply({"act": "del_bond", "b": b, "which": which}); log("del_bond", r["out"], b=b, which=which)
         elif op == "remove_substituent":
             b = rnd.choice(bonds); s, d = (b if rnd.random() < 0.5 else b[::-1])
             r = ad.apply({"act": "remove_substituent", "s": s, "d": d}); log("remove_substituent", r["out"], s=s, d=d)
